@@ -182,6 +182,17 @@ func checkMassiveState(r *evid.Run, pool *wproto.Pool, d *DocState, c *tok.Conc,
 		if massive.Class != "ok" {
 			continue
 		}
+		// a reader that fails half-way: both modes must report an error (C14 owns which one)
+		if route == "text" && d.N%5 == 0 && len(doc) > 2 {
+			half := len(doc) / 2
+			fq := mq
+			fq.ReadFail = &half
+			fm := pool.Call(fq, 60*time.Second)
+			r.Count("real_calls", 1)
+			if fm.Class == "ok" {
+				r.Mismatch(name+":reader-failure-only-an-error-in-simple-mode", fmt.Sprintf("doc=%q reader fails after %d bytes: massive returned nil, out=%q", doc, half, fm.Out), rep)
+			}
+		}
 		accept := d.Verdict == "accept" && rooted
 		switch route {
 		case "text":
